@@ -322,6 +322,11 @@ func handleLMove(params internal.HandlerFuncParams) ([]byte, error) {
 		return nil, errors.New("both source and destination must be lists")
 	}
 
+	// An emptied list stays in the keyspace as an empty list (see LPOP/RPOP): nothing to move.
+	if len(sourceList) == 0 {
+		return nil, errors.New("source list is empty")
+	}
+
 	switch whereFrom {
 	case "left":
 		err = params.SetValues(params.Context, map[string]interface{}{
